@@ -8,8 +8,17 @@
     reverse / no-motif / half-mapped / mates on different contigs / orphan; methods nla, chic, qflag;
     --no_rejects on/off; single process vs --multiprocess under a scheduler-owned Pool with EVERY completion
     order of the jobs.
+(c) the state the INPUT may be in: for a fixed small family of layouts, every combination of record set (the usual classes /
+    plus QC-failed, duplicate-flagged, first-mate-unmapped, second-mate-only, single-end, sparsely tagged, clipped / indel /
+    spliced records and supplementary + secondary alignments) x header (bare / already carrying @RG, @PG and @CO lines of an
+    aligner and of earlier tagging runs) x index (fresh .bai / none / the older .bai of another file / .csi only) x paths
+    (absolute with -temp_folder / relative in the working directory with the default temp folder), each under every method,
+    single and --multiprocess (submission and reverse order), --no_rejects, -tagthreads 1..4, -read_group_format 1 (only the
+    clauses of the property's second sentence), and a second tagging pass over the tagged output (every method pair).
+(d) one 12-contig BAM (every contig kind) per method and mode.
 Oracle: multiset equality of records, sortedness, index, read groups, --no_rejects removes exactly the invalid.
 """
+import contextlib
 import itertools
 import os
 import shutil
@@ -17,33 +26,54 @@ import tempfile
 
 import pysam
 
+from gen import c05_bam
 from gen.bam import Builder, records, is_coordinate_sorted
 from mc import tagger
 from mc.sched import all_orders
 
 ID = 'C05'
-RULE = ('(a) all contig layouts (words over small 5 kb / small 60 kb / large contigs with reads, length 0..n, with/without the unmapped bin) through the '
+RULE = ('(a) all contig layouts (words over small 5 kb / small 60 kb / large contigs with reads, length 0..n, with/without the unmapped bin; '
+        'shorter words also over contigs of 99 999 and exactly 100 000 bp; two-run words up to 12 contigs) through the '
         'real job builder; (b) all BAM layouts x method x --no_rejects x single/--multiprocess x every completion order of the '
-        'pool jobs; non-trivial = multiprocess run with >=3 jobs and an order other than submission order; '
+        'pool jobs; (c) record set x header x index state x paths of the input, each x method x mode x --no_rejects x -tagthreads 1..4 '
+        'x -read_group_format x second pass over the output; (d) a 12-contig BAM; '
+        'non-trivial = multiprocess run with >=3 jobs and an order other than submission order, or (c) any input that is not '
+        'usual-records/bare-header/fresh-index/absolute-paths, or a run with -tagthreads / a second pass; '
         'states = runs of the tagger / job-builder, transitions = records compared')
 ASSUMPTIONS = [
-    'no secondary/supplementary alignments in the input (outside the claim)',
+    'what happens to secondary/supplementary alignments is outside the claim: they occur in the input of (c), are ignored on both sides '
+    'of the comparison, and must not disturb the primary records',
+    'a mate number exists only on records that carry the paired flag (SAM: 0x40/0x80 mean nothing without 0x1); input reads that are '
+    'not flagged paired are not flagged second mate either. The tagger itself clears the paired flag of mates it could not pair, so '
+    'in a second pass the mate number is compared only where the first pass left the paired flag on both mates',
     'the only channel by which a worker schedule reaches the output is the order in which job results are delivered (ScheduledPool); '
     'one free-running real-Pool run per tier guards this',
     'samtools is absent: pysam.merge / pysam.sort code paths are the ones executed',
-    'reads are pre-tagged (SM, RX, BC ...), as in the repository test BAMs; name decoding is C04',
+    'reads are pre-tagged (at least SM, RX, MX; usually BC, LY, Fc, La ...), as in the repository test BAMs; name decoding is C04',
+    '-read_group_format 1 is run on reads that carry the library tag it reads (LY)',
     'one 10 500-fragment input (more than the default ejection interval) per mode drives the buffer-ejection branch inside the tagger',
 ]
 SMALL, MEDIUM, LARGE = 5000, 60000, 120000   # MEDIUM is still below the 100 kb small-contig threshold
-LEN = {'S': SMALL, 'M': MEDIUM, 'L': LARGE, 'U': SMALL, 'V': LARGE}   # U / V: contig holding only a placed unmapped read
+LEN = {'S': SMALL, 'M': MEDIUM, 'L': LARGE, 'U': SMALL, 'V': LARGE,   # U / V: contig holding only a placed unmapped read
+       't': 99999, 'T': 100000}                                         # just below / exactly the small-contig threshold
+WIDE = ('S+', 'M+', 'L+', 'S0', 'L+', 'S+', 'U+', 'M+', 'L0', 'S+', 'V+', 'M+')
 
 
 def bounds(tier):
+    common = {'unmapped_pairs': [0, 1], 'methods': ['nla', 'chic', 'qflag'],
+              'job_builder_two_run_words': 'a^i b^j over S/M/L, 7..12 contigs' if tier == 'quick' else 'subsumed (all words up to 12 contigs)',
+              'input_record_sets': ['usual', 'unusual'], 'input_headers': ['bare', 'rich'], 'input_index': list(c05_bam.INDEX_STATES),
+              'input_paths': ['absolute', 'relative'], 'tagthreads': [None, 1, 2, 3, 4], 'read_group_format': [0, 1],
+              'second_pass': 'every (method, method) pair, single and multiprocess, on fresh-index/absolute-path inputs',
+              'wide_bam_contigs': len(WIDE)}
     if tier == 'quick':
-        return {'job_builder_max_contigs': 6, 'bam_max_contigs': 3, 'contig_kinds': ['S+', 'M+', 'L+', 'S0', 'U+'], 'unmapped_pairs': [0, 1],
-                'methods': ['nla', 'chic', 'qflag'], 'orders': 'all (<=24) for nla default; identity+reverse otherwise'}
-    return {'job_builder_max_contigs': 8, 'bam_max_contigs': 4, 'contig_kinds': ['S+', 'M+', 'L+', 'S0', 'L0', 'U+', 'V+'], 'unmapped_pairs': [0, 1],
-            'methods': ['nla', 'chic', 'qflag'], 'orders': 'all (<=120) for nla default; identity+reverse otherwise'}
+        return dict(common, job_builder_max_contigs=6, job_builder_threshold_letters_max_contigs=4, bam_max_contigs=3,
+                    contig_kinds=['S+', 'M+', 'L+', 'S0', 'U+'], orders='all (<=24) for nla default; identity+reverse otherwise',
+                    input_layouts=[['L+', 'S+']], input_unmapped=[1], tagthreads_methods=['nla'])
+    return dict(common, job_builder_max_contigs=12, job_builder_threshold_letters_max_contigs=6, bam_max_contigs=4,
+                contig_kinds=['S+', 'M+', 'L+', 'S0', 'L0', 'U+', 'V+'], orders='all (<=120) for nla default; identity+reverse otherwise',
+                input_layouts=[list(w) for n in (1, 2) for w in itertools.product(('S+', 'L+'), repeat=n)], input_unmapped=[0, 3],
+                tagthreads_methods=['nla', 'chic', 'qflag'])
 
 
 # ------------------------------------------------------------------ (a) job builder
@@ -52,8 +82,8 @@ class _Probe(Exception):
         self.job_gen = job_gen
 
 
-def probe_jobs(layout, unmapped):
-    """layout: string over 'S','L' -> list of jobs (each a list of contig names) the real code builds"""
+def probe_jobs(layout, unmapped, quiet=True):
+    """layout: string over 'S','M','t','T','L' -> list of jobs (each a list of contig names) the real code builds"""
     tm = tagger.tagger_module()
     contigs = [(f'c{i}', LEN[k]) for i, k in enumerate(layout)]
     listing = list(contigs) + ([('*', 0)] if unmapped else [])
@@ -70,7 +100,7 @@ def probe_jobs(layout, unmapped):
     tm.generate_tasks = fake_tasks
     try:
         try:
-            with tagger.silenced():
+            with (tagger.silenced() if quiet else contextlib.nullcontext()):
                 tm.tag_multiome_multi_processing(input_bam_path='in.bam', out_bam_path='out.bam', molecule_iterator=None,
                                                  molecule_iterator_args={}, fragment_size=1000, bp_per_job=10_000_000,
                                                  bp_per_segment=1_000_000, temp_folder_root=root, one_contig_per_process=True,
@@ -85,15 +115,15 @@ def probe_jobs(layout, unmapped):
         shutil.rmtree(root, ignore_errors=True)
 
 
-def check_jobs(layout, unmapped):
-    jobs, contigs = probe_jobs(layout, unmapped)
+def check_jobs(layout, unmapped, quiet=True):
+    jobs, contigs = probe_jobs(layout, unmapped, quiet)
     if isinstance(jobs, Exception):
         return [(f'jobs:exception:{type(jobs).__name__}', repr(jobs))], 0
     flat = [c for j in jobs for c in j]
     out = []
     for c, l in contigs:
         n = flat.count(c)
-        kind = 'small' if l < 100000 else 'large'
+        kind = 'small' if l < 100000 else ('threshold-length' if l == 100000 else 'large')
         if n == 0:
             out.append((f'jobs:{kind}-contig-with-reads-in-no-job', {'contig': c, 'jobs': jobs}))
         elif n > 1:
@@ -111,10 +141,10 @@ def check_jobs(layout, unmapped):
 
 
 # ------------------------------------------------------------------ (b) end to end
-def build_bam(path, layout, n_unmapped):
+def build_bam(path, layout, n_unmapped, recs='usual', rich_header=False):
     """layout: tuple of kinds 'S+','L+','S0','L0'. Returns truth: {name: class}"""
     contigs = [(f'c{i}{k[0]}', LEN[k[0]]) for i, k in enumerate(layout)]
-    b = Builder(contigs)
+    b = c05_bam.builder(contigs, rich_header)
     truth = {}
     with_reads = [c for (c, l), k in zip(contigs, layout) if k.endswith('+') and k[0] not in 'UV']
     for ci, c in enumerate(with_reads):
@@ -126,6 +156,8 @@ def build_bam(path, layout, n_unmapped):
         truth[b.pair(c, base + 400, cell=2, umi='ACG', reverse=True)] = 'valid'
         truth[b.pair(c, base + 800, cell=1, umi='CCC', motif='CTTG')] = 'nomotif'
         truth[b.pair(c, base + 1200, cell=1, umi='GGA', r2_unmapped=True)] = 'halfmapped'
+        if recs == 'unusual':
+            c05_bam.add_unusual_mapped(b, c, 3600 + 3 * ci, truth)
     for (c, l), k in zip(contigs, layout):
         if k[0] in 'UV':
             truth[b.placed_unmapped_orphan(c, 700, cell=2, umi='GCA')] = 'unmapped'
@@ -135,6 +167,8 @@ def build_bam(path, layout, n_unmapped):
         truth[b.pair(with_reads[0], 3300, cell=2, umi='TAT', r1_only_in_file=True)] = 'orphan'
     for _ in range(n_unmapped):
         truth[b.unmapped_pair()] = 'unmapped'
+    if recs == 'unusual' and n_unmapped:
+        c05_bam.add_unusual_unmapped(b, truth)
     b.write(path)
     return truth
 
@@ -144,36 +178,20 @@ def rec_key(r, both):
     return (r['name'], mate, r['seq'], r['qual'], r['contig'], r['pos'], r['cigar'])
 
 
-def compare(inp, out_path, tag):
-    """conservation + well-formedness of one output against the input records"""
-    viol = []
-    if not os.path.exists(out_path):
-        return [(f'{tag}:no-output-bam', {})], None
-    try:
-        out = records(out_path)
-    except Exception as ex:
-        return [(f'{tag}:output-unreadable:{type(ex).__name__}', repr(ex))], None
-    names = {}
+def names_with_both_mates(inp):
+    """names of which both mates are present as records that carry the paired flag (only there a mate number exists)"""
+    names, unpaired = {}, set()
     for r in inp:
         names.setdefault(r['name'], set()).add(r['mate'])
-    both = {n for n, m in names.items() if len(m) == 2}
-    want = sorted(rec_key(r, both) for r in inp)
-    got = sorted(rec_key(r, both) for r in out)
-    if want != got:
-        from collections import Counter
-        cw, cg = Counter(want), Counter(got)
-        lost = list((cw - cg).elements())
-        extra = list((cg - cw).elements())
-        lost_names = {(k[0], k[1]) for k in lost}
-        extra_names = {(k[0], k[1]) for k in extra}
-        if lost_names & extra_names:
-            viol.append((f'{tag}:record-altered', {'before': lost[:2], 'after': extra[:2]}))
-        if lost_names - extra_names:
-            kinds = sorted({'unmapped' if k[4] is None else 'mapped' for k in lost if (k[0], k[1]) not in extra_names})
-            viol.append((f'{tag}:record-lost:{"+".join(kinds)}', {'lost': lost[:3], 'n': len(lost)}))
-        if extra_names - lost_names:
-            kinds = sorted({'unmapped' if k[4] is None else 'mapped' for k in extra if (k[0], k[1]) not in lost_names})
-            viol.append((f'{tag}:record-written-twice:{"+".join(kinds)}', {'extra': extra[:3], 'n': len(extra)}))
+        if not r['paired']:
+            unpaired.add(r['name'])
+    return {n for n, m in names.items() if 1 in m and 2 in m and n not in unpaired}
+
+
+def wellformed(out_path, out, tag):
+    """second sentence of the property: coordinate sorted, indexed (and the index serves every placed record), every record
+    carries a read group which the header declares"""
+    viol = []
     if not is_coordinate_sorted(out):
         viol.append((f'{tag}:output-not-coordinate-sorted', {}))
     if not (os.path.exists(out_path + '.bai') or os.path.exists(out_path + '.csi')):
@@ -183,7 +201,7 @@ def compare(inp, out_path, tag):
             with pysam.AlignmentFile(out_path) as f:
                 n = 0
                 for c in f.references:
-                    n += sum(1 for _ in f.fetch(c))
+                    n += sum(1 for r in f.fetch(c) if not (r.is_secondary or r.is_supplementary))
                 n_mapped_placed = sum(1 for r in out if r['tid'] >= 0)
                 if n != n_mapped_placed:
                     viol.append((f'{tag}:index-does-not-cover-all-records', {'via_index': n, 'in_file': n_mapped_placed}))
@@ -200,6 +218,37 @@ def compare(inp, out_path, tag):
                 if rg not in rgs:
                     viol.append((f'{tag}:read-group-not-declared-in-header', {'RG': rg, 'declared': sorted(rgs)}))
                     break
+    return viol
+
+
+def compare(inp, out_path, tag, conservation=True):
+    """conservation + well-formedness of one output against the input records"""
+    viol = []
+    if not os.path.exists(out_path):
+        return [(f'{tag}:no-output-bam', {})], None
+    try:
+        out = records(out_path)
+    except Exception as ex:
+        return [(f'{tag}:output-unreadable:{type(ex).__name__}', repr(ex))], None
+    both = names_with_both_mates(inp)
+    want = sorted(rec_key(r, both) for r in inp)
+    got = sorted(rec_key(r, both) for r in out)
+    if conservation and want != got:
+        from collections import Counter
+        cw, cg = Counter(want), Counter(got)
+        lost = list((cw - cg).elements())
+        extra = list((cg - cw).elements())
+        lost_names = {(k[0], k[1]) for k in lost}
+        extra_names = {(k[0], k[1]) for k in extra}
+        if lost_names & extra_names:
+            viol.append((f'{tag}:record-altered', {'before': lost[:2], 'after': extra[:2]}))
+        if lost_names - extra_names:
+            kinds = sorted({'unmapped' if k[4] is None else 'mapped' for k in lost if (k[0], k[1]) not in extra_names})
+            viol.append((f'{tag}:record-lost:{"+".join(kinds)}', {'lost': lost[:3], 'n': len(lost)}))
+        if extra_names - lost_names:
+            kinds = sorted({'unmapped' if k[4] is None else 'mapped' for k in extra if (k[0], k[1]) not in lost_names})
+            viol.append((f'{tag}:record-written-twice:{"+".join(kinds)}', {'extra': extra[:3], 'n': len(extra)}))
+    viol += wellformed(out_path, out, tag)
     return viol, out
 
 
@@ -215,33 +264,88 @@ def run_case(case, keep=None):
         shutil.rmtree(d, ignore_errors=True)
 
 
-def run_on(d, inp_path, inp, truth, case, real_pool=False):
-    out_path = os.path.join(d, f'out_{case["mode"]}.bam')
-    for p in (out_path, out_path + '.bai'):
+ENV_DEFAULT = (('recs', 'usual'), ('header', 'bare'), ('index', 'fresh'), ('paths', 'absolute'))
+
+
+def case_tag(case, name_env=None):
+    """configuration class of a run: what a signature names besides the violated clause. Of the letters that describe the state
+    of the input only those in name_env are named (None: every one that is not the default)"""
+    case = dict(case)
+    if name_env is not None:
+        for dim, default in ENV_DEFAULT:
+            if dim not in name_env:
+                case[dim] = default
+    tag = f"{case['method']}:{'multiprocess' if case['mode'] == 'multi' else 'single'}" + (':no_rejects' if case['no_rejects'] else '')
+    if case.get('tagthreads') is not None:
+        tag += ':tagthreads'
+    if case.get('rgf'):
+        tag += ':read_group_format_1'
+    if case.get('index', 'fresh') != 'fresh':
+        tag += f":{case['index']}-input-index"
+    if case.get('header', 'bare') != 'bare':
+        tag += ':input-with-header-lines'
+    if case.get('paths', 'absolute') != 'absolute':
+        tag += ':relative-paths-default-temp'
+    if case.get('recs', 'usual') != 'usual':
+        tag += ':unusual-records'
+    if case.get('first_pass'):
+        tag = f"second-pass-after-{case['first_pass']}:" + tag
+    return tag
+
+
+def run_on(d, inp_path, inp, truth, case, real_pool=False, out_name=None, prepare=None, tag=None):
+    """one run of the real command line on inp_path (a file in directory d); inp: the records the output is compared with"""
+    out_path = os.path.join(d, out_name or f'out_{case["mode"]}.bam')
+    for p in (out_path, out_path + '.bai', out_path + '.csi'):
         if os.path.exists(p):
             os.remove(p)
-    argv = [inp_path, '-method', case['method'], '-o', out_path, '-temp_folder', d]
+    if prepare is not None:
+        prepare()
+    relative = case.get('paths', 'absolute') == 'relative'
+    if relative:
+        # what a user types in the directory of the data: relative names, no -temp_folder (its default is the working directory)
+        argv = [os.path.relpath(inp_path, d), '-method', case['method'], '-o', os.path.relpath(out_path, d)]
+    else:
+        argv = [inp_path, '-method', case['method'], '-o', out_path, '-temp_folder', d]
     if case['no_rejects']:
         argv.append('--no_rejects')
     if case['mode'] == 'multi':
         argv.append('--multiprocess')
+    if case.get('tagthreads') is not None:
+        argv += ['-tagthreads', str(case['tagthreads'])]
+    if case.get('rgf'):
+        argv += ['-read_group_format', str(case['rgf'])]
+    if case.get('extra_argv'):
+        argv += list(case['extra_argv'])
     order = case.get('order')
-    tag = f"{case['method']}:{'multiprocess' if case['mode'] == 'multi' else 'single'}" + (':no_rejects' if case['no_rejects'] else '')
-    if real_pool:
-        err = tagger.run_tagger_subprocess(argv)
-        if err is not None:
-            return [(f'{tag}:real-pool-run-failed', err)], {'jobs': None}
-        info = {'jobs': None}
-    else:
-        exc, sch = tagger.run_tagger(argv, order=order)
-        if exc is not None:
-            return [(f'{tag}:exception:{type(exc).__name__}', repr(exc))], {'jobs': None}
-        info = {'jobs': sch.log[0]['n'] if sch.log else None}
+    if order == 'reverse':
+        def order(n, call_index):       # whatever the number of jobs turns out to be
+            return list(reversed(range(n)))
+    tag = tag or case_tag(case)
+    cwd = os.getcwd()
+    try:
+        if relative:
+            os.chdir(d)
+        if real_pool:
+            err = tagger.run_tagger_subprocess(argv)
+            if err is not None:
+                return [(f'{tag}:real-pool-run-failed', err)], {'jobs': None}
+            info = {'jobs': None}
+        else:
+            exc, sch = tagger.run_tagger(argv, order=order)
+            if exc is not None:
+                return [(f'{tag}:exception:{type(exc).__name__}', repr(exc))], {'jobs': None}
+            info = {'jobs': sch.log[0]['n'] if sch.log else None}
+    finally:
+        if relative:
+            os.chdir(cwd)
     if not case['no_rejects']:
-        viol, out = compare(inp, out_path, tag)
+        viol, out = compare(inp, out_path, tag, conservation=not case.get('rgf'))
         return viol, info
     # --no_rejects: exactly the invalid fragments are removed
-    removed_ok = {'nomotif', 'unmapped'} if case['method'] == 'nla' else {'unmapped'}
+    #   removal allowed: no NlaIII motif (nla), unmapped, QC-failed on input; must stay: the usual valid classes;
+    #   the other classes (half-mapped, orphan, split, single-end, clipped) are left open by the property
+    removed_ok = {'nomotif', 'unmapped', 'qcfail_in'} if case['method'] == 'nla' else {'unmapped', 'qcfail_in'}
     must_keep = {'valid'} if case['method'] == 'nla' else {'valid', 'nomotif'}
     keep_inp = [r for r in inp if truth[r['name']] in must_keep]
     viol = []
@@ -259,10 +363,7 @@ def run_on(d, inp_path, inp, truth, case, real_pool=False):
     if rej:
         viol.append((f'{tag}:rejected-(qcfail)-record-written', {'names': rej[:3]}))
     # every kept record is an unaltered input record, written once
-    names = {}
-    for r in inp:
-        names.setdefault(r['name'], set()).add(r['mate'])
-    both = {n for n, m in names.items() if len(m) == 2}
+    both = names_with_both_mates(inp)
     inp_keys = {}
     for r in inp:
         inp_keys[rec_key(r, both)] = inp_keys.get(rec_key(r, both), 0) + 1
@@ -276,10 +377,7 @@ def run_on(d, inp_path, inp, truth, case, real_pool=False):
         if seen[k] > inp_keys[k]:
             viol.append((f'{tag}:record-written-twice', {'record': k}))
             break
-    if not is_coordinate_sorted(out):
-        viol.append((f'{tag}:output-not-coordinate-sorted', {}))
-    if not os.path.exists(out_path + '.bai'):
-        viol.append((f'{tag}:index-missing', {}))
+    viol += wellformed(out_path, out, tag)
     return viol, info
 
 
@@ -290,12 +388,69 @@ def layouts(tier):
             yield lay
 
 
+# ------------------------------------------------------------------ (a) enumeration
+_JOB_WORDS = {}
+
+
+def job_words(tier):
+    """every layout word the job builder is probed with, grouped by the first (up to) two letters so that the groups can run
+    side by side; simplest first inside a group"""
+    if tier in _JOB_WORDS:
+        return _JOB_WORDS[tier]
+    b = bounds(tier)
+    n_max, n_thr = b['job_builder_max_contigs'], b['job_builder_threshold_letters_max_contigs']
+    groups = {}
+
+    plen = 2 if tier == 'quick' else 3
+
+    def add(w):
+        groups.setdefault(w[:plen], []).append(w)
+    seen = set()
+    for k in range(0, n_max + 1):
+        for lay in itertools.product('SML', repeat=k):
+            w = ''.join(lay)
+            seen.add(w)
+            add(w)
+    for k in range(1, n_thr + 1):
+        for lay in itertools.product('SMtTL', repeat=k):
+            w = ''.join(lay)
+            if w not in seen:
+                seen.add(w)
+                add(w)
+    if n_max < 12:
+        # two-run words a^i b^j up to the 12 contigs the property speaks of
+        for k in range(n_max + 1, 13):
+            for a in 'SML':
+                for bb in 'SML':
+                    for i in range(0, k + 1):
+                        w = a * i + bb * (k - i)
+                        if w not in seen:
+                            seen.add(w)
+                            add(w)
+    _JOB_WORDS[tier] = groups
+    return groups
+
+
+# ------------------------------------------------------------------ (c) enumeration
+def input_variants(tier):
+    """(recs, header, index) triples: one shard each; layouts, unmapped counts and paths are enumerated inside"""
+    b = bounds(tier)
+    return [(r, h, i) for r in b['input_record_sets'] for h in b['input_headers'] for i in b['input_index']]
+
+
 def shards(tier):
-    out = [('jobs', tier)]
+    out = [('jobs', tier, key) for key in sorted(job_words(tier), key=lambda k: (len(k), k))]
     ls = list(layouts(tier))
     G = 2 if tier == 'quick' else 6
     for i in range(0, len(ls), G):
         out.append(('bams', ls[i:i + G]))
+    for v in input_variants(tier):
+        if tier == 'quick':
+            out.append(('inputs', v, None))
+        else:
+            for lay in bounds(tier)['input_layouts']:
+                out.append(('inputs', v, lay))
+    out.append(('wide', tier))
     out.append(('conformance', tier))
     out.append(('big', 'single'))
     out.append(('big', 'multi'))
@@ -304,13 +459,15 @@ def shards(tier):
 
 def run_shard(shard, tier, acc):
     if shard[0] == 'jobs':
-        n = bounds(tier)['job_builder_max_contigs']
-        for k in range(0, n + 1):
-            for lay in itertools.product('SML', repeat=k):
+        words = job_words(tier)[shard[2]]
+        with tagger.silenced():
+            for w in words:
                 for unmapped in (False, True):
-                    case = {'kind': 'jobs', 'layout': ''.join(lay), 'unmapped': unmapped}
-                    viols, njobs = check_jobs(case['layout'], unmapped)
-                    acc.case(case, transitions=max(njobs, 1), nontrivial=(('S' in lay or 'M' in lay) and 'L' in lay), outcome=f'jobs={min(njobs, 6)}')
+                    case = {'kind': 'jobs', 'layout': w, 'unmapped': unmapped}
+                    viols, njobs = check_jobs(w, unmapped, quiet=False)
+                    small = any(c in w for c in 'SMt')
+                    acc.case(case, transitions=max(njobs, 1), nontrivial=(small and any(c in w for c in 'LT')),
+                             outcome=f'jobs={min(njobs, 6)}' + (':threshold-letter' if ('t' in w or 'T' in w) else '') + (':>8-contigs' if len(w) > 8 else ''))
                     for sig, d in viols:
                         acc.violation(sig, case, d)
         return
@@ -324,14 +481,22 @@ def run_shard(shard, tier, acc):
         return
     if shard[0] == 'conformance':
         # free-running pass with the real multiprocessing.Pool: the fake pool must not hide anything
-        for lay, um in ((('S+', 'L+', 'S+'), 1), (('M+', 'M+', 'S+'), 1), (('L+', 'S+', 'S0', 'L+')[:bounds(tier)['bam_max_contigs']], 1)):
+        for lay, um, tt in ((('S+', 'L+', 'S+'), 1, None), (('M+', 'M+', 'S+'), 1, 2), (('L+', 'S+', 'S0', 'L+')[:bounds(tier)['bam_max_contigs']], 1, None)):
             case = {'kind': 'conformance', 'layout': list(lay), 'unmapped': um, 'method': 'nla', 'no_rejects': False, 'mode': 'multi',
                     'order': None}
+            if tt is not None:
+                case['tagthreads'] = tt     # a real pool of exactly two workers
             viols, info = _conformance(case)
-            acc.case(case, transitions=1, nontrivial=True, outcome='conformance-real-pool')
+            acc.case(case, transitions=1, nontrivial=True, outcome='conformance-real-pool' + (f':tagthreads={tt}' if tt else ''))
             acc.count('conformance_runs')
             for sig, d in viols:
                 acc.violation(sig, case, d)
+        return
+    if shard[0] == 'inputs':
+        run_inputs_shard(shard, tier, acc)
+        return
+    if shard[0] == 'wide':
+        run_wide(acc)
         return
     # One directory and ONE input path for the whole shard: every layout replaces the BAM (and its index) at the same path,
     # as a pipeline that regenerates its input does. Anything the code under test remembers about a path between runs
@@ -340,12 +505,7 @@ def run_shard(shard, tier, acc):
     for lay in shard[1]:
         for um in bounds(tier)['unmapped_pairs']:
             d = shard_dir
-            for fn in os.listdir(d):
-                fp = os.path.join(d, fn)
-                if os.path.isdir(fp):
-                    shutil.rmtree(fp, ignore_errors=True)
-                else:
-                    os.remove(fp)
+            _empty(d)
             try:
                 inp_path = os.path.join(d, 'in.bam')
                 truth = build_bam(inp_path, lay, um)
@@ -377,12 +537,166 @@ def run_shard(shard, tier, acc):
     shutil.rmtree(shard_dir, ignore_errors=True)
 
 
-def _report(acc, case, viols, info, nrec):
+def _empty(d):
+    for fn in os.listdir(d):
+        fp = os.path.join(d, fn)
+        if os.path.isdir(fp):
+            shutil.rmtree(fp, ignore_errors=True)
+        else:
+            os.remove(fp)
+
+
+def _report(acc, case, viols, info, nrec, nontrivial=None, label=''):
     nj = info.get('jobs')
-    acc.case(case, transitions=nrec, nontrivial=(case['mode'] == 'multi' and (nj or 0) >= 3 and case.get('order') is not None),
-             outcome=f"{case['method']}:{case['mode']}:jobs={nj}:norej={case['no_rejects']}:viol={len(viols)}")
+    if nontrivial is None:
+        nontrivial = (case['mode'] == 'multi' and (nj or 0) >= 3 and case.get('order') is not None)
+    acc.case(case, transitions=nrec, nontrivial=nontrivial,
+             outcome=f"{label}{case['method']}:{case['mode']}:jobs={nj}:norej={case['no_rejects']}:viol={len(viols)}")
     for sig, d in viols:
         acc.violation(sig, case, d)
+
+
+# ------------------------------------------------------------------ (c) the state of the input
+class _Input:
+    """one input BAM of part (c) at <d>/in.bam, with the means to put its index back into the state under test before every run
+    (the first run repairs a missing / stale index, so the state has to be re-established each time)"""
+
+    def __init__(self, d, layout, um, recs, header, index):
+        self.d, self.index = d, index
+        self.path = os.path.join(d, 'in.bam')
+        self.truth = build_bam(self.path, tuple(layout), um, recs=recs, rich_header=(header == 'rich'))
+        self.records = records(self.path)
+        self.bai, self.csi = c05_bam.index_bytes(self.path)
+        contigs = [(f'c{i}{k[0]}', LEN[k[0]]) for i, k in enumerate(layout)]
+        self.foreign = c05_bam.make_foreign_index(contigs, d)
+
+    def prepare(self):
+        c05_bam.set_index_state(self.path, self.index, self.foreign, self.bai, self.csi)
+
+
+def input_runs(tier, recs):
+    """the runs every input of part (c) is put through: (options, label)"""
+    b = bounds(tier)
+    runs = []
+    for method in b['methods']:
+        runs.append((dict(method=method, no_rejects=False, mode='single', order=None), 'default'))
+        runs.append((dict(method=method, no_rejects=False, mode='multi', order=None), 'default'))
+        runs.append((dict(method=method, no_rejects=False, mode='multi', order='reverse'), 'default'))
+    for method in ('nla', 'chic'):
+        for mode in ('single', 'multi'):
+            runs.append((dict(method=method, no_rejects=True, mode=mode, order=None), 'no_rejects'))
+    for method in b['tagthreads_methods']:
+        for t in (1, 2, 3, 4):
+            runs.append((dict(method=method, no_rejects=False, mode='multi', order=None, tagthreads=t), f'tagthreads={t}'))
+    if recs == 'usual':          # every usual read carries LY
+        for mode in ('single', 'multi'):
+            runs.append((dict(method='nla', no_rejects=False, mode=mode, order=None, rgf=1), 'rgf=1'))
+    return runs
+
+
+def run_input_case(case, inp=None):
+    """one case of part (c) with the violated clauses attributed to the letters of the input that are needed for them: every
+    letter that is not the default is put back to its default in turn (a fresh input in its own directory); a clause that is
+    still violated then does not get that letter into its signature. A defect that shows for every input is thus reported
+    under ONE signature, one that needs the stale index under a signature that says so. Costs nothing while nothing fails."""
+    bare = case_tag(case, name_env=())
+    viols, info = _run_input_case(case, inp, bare)
+    varied = [dim for dim, default in ENV_DEFAULT if case.get(dim, default) != default]
+    if not viols or not varied:
+        return viols, info
+    still = {}
+    for dim in varied:
+        v2, _ = _run_input_case(dict(case, **{dim: dict(ENV_DEFAULT)[dim]}), None, bare)
+        still[dim] = {sig for sig, _ in v2}
+    out = []
+    for sig, detail in viols:
+        needed = [dim for dim in varied if sig not in still[dim]]
+        clause = sig[len(bare) + 1:]
+        out.append((f'{case_tag(case, name_env=needed)}:{clause}', detail))
+    return out, info
+
+
+def _run_input_case(case, inp, tag):
+    """builds the input unless `inp` (an _Input in its own directory) is handed in; signatures are <tag>:<clause>"""
+    own = inp is None
+    d = tempfile.mkdtemp(prefix='c05i_', dir='/dev/shm') if own else inp.d
+    try:
+        if own:
+            inp = _Input(d, case['layout'], case['unmapped'], case['recs'], case['header'], case['index'])
+        c = dict(case)
+        if not case.get('first_pass'):
+            return run_on(d, inp.path, inp.records, inp.truth, c, prepare=inp.prepare, tag=tag)
+        # second pass: tag the input with the first method, then tag THAT output; its records are the reference
+        first = dict(method=case['first_pass'], no_rejects=False, mode=case['mode'], order=None, paths=case.get('paths', 'absolute'),
+                     index=case['index'], header=case['header'], recs=case['recs'])
+        mid_name = f"first_{case['first_pass']}_{case['mode']}.bam"
+        mid = os.path.join(d, mid_name)
+        if own or not os.path.exists(mid + '.ok'):
+            viols, info = run_on(d, inp.path, inp.records, inp.truth, first, out_name=mid_name, prepare=inp.prepare)
+            if viols:
+                # reported by the first-pass case itself; nothing to feed into a second pass
+                return [], {'jobs': None, 'skipped': True}
+            open(mid + '.ok', 'w').close()      # the same first pass serves the three second-pass methods of a shard
+        mid_records = records(mid)
+        return run_on(d, mid, mid_records, inp.truth, c, out_name='second.bam', tag=tag)
+    finally:
+        if own:
+            shutil.rmtree(d, ignore_errors=True)
+
+
+def run_inputs_shard(shard, tier, acc):
+    (recs, header, index) = shard[1]
+    b = bounds(tier)
+    lays = b['input_layouts'] if shard[2] is None else [shard[2]]
+    d = tempfile.mkdtemp(prefix='c05i_', dir='/dev/shm')
+    try:
+        for lay in lays:
+            for um in b['input_unmapped']:
+                _empty(d)
+                inp = _Input(d, lay, um, recs, header, index)
+                plain = (recs, header, index) == ('usual', 'bare', 'fresh')
+                for paths in b['input_paths']:
+                    for opts, label in input_runs(tier, recs):
+                        case = dict(opts, kind='input', layout=list(lay), unmapped=um, recs=recs, header=header, index=index, paths=paths)
+                        viols, info = run_input_case(case, inp)
+                        _report(acc, case, viols, info, len(inp.records),
+                                nontrivial=(not plain or paths != 'absolute' or label != 'default'), label=f'input:{label}:')
+                        for key in (f'records={recs}', f'header={header}', f'index={index}', f'paths={paths}', f'run={label}'):
+                            acc.count('input.' + key)
+                if index == 'fresh':
+                    # a second tagging pass over the tagged file (its flags, tags and header lines are now those the tagger writes)
+                    for first in b['methods']:
+                        for method in b['methods']:
+                            for mode in ('single', 'multi'):
+                                case = dict(kind='input', layout=list(lay), unmapped=um, recs=recs, header=header, index=index, paths='absolute',
+                                            method=method, no_rejects=False, mode=mode, order=None, first_pass=first)
+                                viols, info = run_input_case(case, inp)
+                                _report(acc, case, viols, info, len(inp.records), nontrivial=not info.get('skipped'),
+                                        label=f'input:second-pass-after-{first}:' + ('SKIPPED:' if info.get('skipped') else ''))
+                                for key in (f'records={recs}', f'header={header}', 'run=second-pass'):
+                                    acc.count('input.' + key)
+    finally:
+        shutil.rmtree(d, ignore_errors=True)
+
+
+# ------------------------------------------------------------------ (d) twelve contigs end to end
+def wide_cases():
+    for method in ('nla', 'chic', 'qflag'):
+        yield dict(kind='wide', layout=list(WIDE), unmapped=1, method=method, no_rejects=False, mode='single', order=None)
+        yield dict(kind='wide', layout=list(WIDE), unmapped=1, method=method, no_rejects=False, mode='multi', order=None)
+        yield dict(kind='wide', layout=list(WIDE), unmapped=1, method=method, no_rejects=False, mode='multi', order='reverse')
+        if method != 'qflag':
+            yield dict(kind='wide', layout=list(WIDE), unmapped=1, method=method, no_rejects=True, mode='multi', order=None)
+
+
+def run_wide_case(case):
+    return run_case(case)
+
+
+def run_wide(acc):
+    for case in wide_cases():
+        viols, info = run_wide_case(case)
+        _report(acc, case, viols, info, 0, nontrivial=True, label='wide:')
 
 
 def run_big(case):
@@ -418,4 +732,8 @@ def replay(case):
         return _conformance(case)[0]
     if case['kind'] == 'big':
         return run_big(case)[0]
+    if case['kind'] == 'input':
+        return run_input_case(case)[0]
+    if case['kind'] == 'wide':
+        return run_wide_case(case)[0]
     return run_case(case)[0]
